@@ -303,7 +303,7 @@ fn main() {
                 Some(s) => format!("{} {}", s, closes(&w.lock().unwrap())),
             }
         }
-        ["rx", role, calls, form, payload, tail, chunk] => {
+        ["rx", role, calls, form, payload, tail, chunk, pre] => {
             let p = unhex(payload);
             let tail = unhex(tail);
             let chunk: usize = chunk.parse().unwrap();
@@ -355,7 +355,19 @@ fn main() {
                 return format!("defaults-not-in-force {}", before);
             }
             // the peer's control stream: type 00, then the SETTINGS frame, then TAIL
-            let id: u64 = if client { 3 } else { 2 };
+            // PRE: other uni streams the peer opens (and partly fills) BEFORE its control stream; comma-separated hex of
+            // the bytes delivered on each (`0` = opened, nothing delivered yet, `-` = no such streams).  They stay silent.
+            let mut id: u64 = if client { 3 } else { 2 };
+            if *pre != "-" {
+                for item in pre.split(',') {
+                    apply_event(&w, &format!("U{}", id));
+                    if item != "0" {
+                        apply_event(&w, &format!("{}:c:{}", id, item));
+                    }
+                    ex.run();
+                    id += 4;
+                }
+            }
             let mut bytes = vec![0u8];
             bytes.extend(settings_frame(form.parse().unwrap(), &p));
             bytes.extend_from_slice(&tail);
